@@ -49,7 +49,9 @@ BOUNDS = {'quick': '2 processes + 1 step, parallel or not (two symbolic flags), 
                    'update, end twice, engine dropped}',
           'thorough': 'same with timesteps [1,4] and two run_for calls before '
                       'the stop point'}
-OUTSIDE = 'real pipes, pickling, forkserver start-up, OS scheduling, zombies'
+OUTSIDE = 'real pipes, pickling, forkserver start-up, OS scheduling, ' \
+          'zombies; profile=True (cProfile inside worker threads of the stub ' \
+          'is not faithful and conflicts with the explorer\'s own profiler)'
 
 CTX = {}
 SUB = {'s': {'x': {'_default': 0, '_emit': True}}}
@@ -183,7 +185,8 @@ def run_once(ctx, cfg, flags, ivs, tag):
             topology={'k': {'agents': ('agents',), 'away': ('away',)},
                       'agents': {'a': {'grow': {'s': ('s',)}}},
                       'q': {'s': ('qs',)}, 'st': {'s': ('qs',)}},
-            emitter={'type': 'vsym_rec', 'tag': tag}, display_info=False)
+            emitter={'type': 'vsym_rec', 'tag': tag}, display_info=False,
+            profile=bool(cfg.get('profile')))
         stop = cfg['stop']
         if stop == 'end_after_run_for':
             e.run_for(ivs[0], force_complete=False)
